@@ -25,6 +25,9 @@ pub enum Wrong {
     BitFlip(usize),
     Truncate(usize),
     Extend(usize),
+    /// the genuine next ciphertext, but a caller buffer too small for its message (classic API): the pull
+    /// is refused, and a refused pull must leave the stream where it was
+    ShortBuffer(usize),
 }
 
 #[derive(Debug, Clone, PartialEq, Eq, Serialize, Deserialize)]
@@ -230,6 +233,31 @@ pub fn check(c: &Case, stats: &mut Stats) -> Result<(), String> {
                     last_delivered = Some((ct, ad));
                 }
             },
+            Op::DeliverWrong { w: Wrong::ShortBuffer(k), .. } => {
+                let Some(Wire::Ct { ct, ad, msg, .. }) = queue.front() else { continue };
+                if msg.is_empty() {
+                    continue;
+                }
+                let blen = msg.len() - 1 - k % msg.len();
+                let before = dpl.clone();
+                let before_parts = dpl.verif_parts();
+                let mut m = vec![0u8; blen];
+                let mut tag = 0xA5u8;
+                match no_panic(|| css::crypto_secretstream_xchacha20poly1305_pull(&mut dpl, &mut m, &mut tag, ct, ad.as_deref())) {
+                    // a panic on a caller-side sizing mistake is outside this property; the history ends here
+                    Err(_) => {
+                        stats.excluded += 1;
+                        return Ok(());
+                    }
+                    Ok(Ok(_)) => return Err(format!("step {step}: pull returned Ok into a {blen}-byte buffer although the pushed message has {} bytes", msg.len())),
+                    Ok(Err(_)) => {}
+                }
+                if dpl != before || dpl.verif_parts() != before_parts {
+                    return Err(format!("step {step}: a pull refused because the caller's buffer ({blen} bytes) is too small for the {}-byte message changed the pull stream state", msg.len()));
+                }
+                pending_wrong = true;
+                stats.classes.push("short-buffer".into());
+            }
             Op::DeliverWrong { w, api } => {
                 // genuine next (skipping markers is not allowed: a marker means the puller must rekey first)
                 let next = match queue.front() {
@@ -280,6 +308,7 @@ pub fn check(c: &Case, stats: &mut Stats) -> Result<(), String> {
                         c2.extend(std::iter::repeat(0u8).take(1 + k % 20));
                         (c2, ad.clone())
                     }),
+                    Wrong::ShortBuffer(_) => None, // handled above
                 };
                 let Some((wc, wad)) = cand else { continue };
                 // reference verdict on a copy of the reference pull state
@@ -310,6 +339,7 @@ pub fn check(c: &Case, stats: &mut Stats) -> Result<(), String> {
                         Wrong::AdFlip(_) | Wrong::AdDrop | Wrong::AdExtend => "wrong-AD",
                         Wrong::BitFlip(_) => "bit-flip",
                         Wrong::Truncate(_) | Wrong::Extend(_) => "truncate/extend",
+                        Wrong::ShortBuffer(_) => "short-buffer",
                     }
                     .into(),
                 );
@@ -343,6 +373,7 @@ fn op_strat() -> impl Strategy<Value = Op> {
         3 => (0usize..4000).prop_map(Wrong::BitFlip),
         1 => (0usize..300).prop_map(Wrong::Truncate),
         1 => (0usize..20).prop_map(Wrong::Extend),
+        2 => (0usize..300).prop_map(Wrong::ShortBuffer),
     ];
     prop_oneof![
         5 => (mlen, adlen, tag, api_strat()).prop_map(|(mlen, adlen, tag, api)| Op::Push { mlen, adlen, tag, api }),
@@ -365,7 +396,7 @@ pub fn case_strat(depth: usize) -> impl Strategy<Value = Case> {
 }
 
 pub fn run(ctx: &mut Ctx) -> Result<(), Violation> {
-    ctx.rule = "proptest histories vec(op, 0..=D) over {Push(mlen 0..=200|1024, adlen None|0..=40, any tag byte, classic|object API), Rekey, DeliverNext, DeliverWrong(replay|skip/swap|foreign stream|AD flipped/dropped/extended|bit flip|truncate|extend)} from start classes {fresh, counter 2, 0x7fffffff, 0xfffffffd, 0xfffffffe, 0xffffffff} (preset through the verif_hooks constructor and libsodium's public state struct), interpreted in lock-step against dryoc push, dryoc pull, libsodium push and libsodium pull; all queued messages are delivered at the end. Oracle after every step: ciphertext bytes equal; (k, nonce) of dryoc state == libsodium state; in-order pull returns the pushed (message, tag); a wrong delivery (one libsodium rejects from the same state) returns Err without panic and leaves the dryoc pull state bit-identical (PartialEq and hook), after which the genuine next ciphertext is accepted. Non-trivial: history with >= 1 rejected wrong delivery followed by a successful pull, or that crosses a rekey (explicit, tag-driven, counter wrap); distinct = hash(history). Message-length residues mod 16/64 are additionally enumerated (0..=200) in a deterministic pass.".into();
+    ctx.rule = "proptest histories vec(op, 0..=D) over {Push(mlen 0..=200|1024, adlen None|0..=40, any tag byte, classic|object API), Rekey, DeliverNext, DeliverWrong(replay|skip/swap|foreign stream|AD flipped/dropped/extended|bit flip|truncate|extend|genuine ciphertext into an undersized caller buffer)} from start classes {fresh, counter 2, 0x7fffffff, 0xfffffffd, 0xfffffffe, 0xffffffff} (preset through the verif_hooks constructor and libsodium's public state struct), interpreted in lock-step against dryoc push, dryoc pull, libsodium push and libsodium pull; all queued messages are delivered at the end. Oracle after every step: ciphertext bytes equal; (k, nonce) of dryoc state == libsodium state; in-order pull returns the pushed (message, tag); a wrong delivery (one libsodium rejects from the same state) returns Err without panic and leaves the dryoc pull state bit-identical (PartialEq and hook), after which the genuine next ciphertext is accepted. Non-trivial: history with >= 1 rejected wrong delivery followed by a successful pull, or that crosses a rekey (explicit, tag-driven, counter wrap); distinct = hash(history). Message-length residues mod 16/64 are additionally enumerated (0..=200) in a deterministic pass.".into();
     ctx.assumptions = vec![
         "libsodium's crypto_secretstream is the reference state machine".into(),
         "counter classes near 2^32 are reached through the feature-guarded State::verif_from_parts hook".into(),
